@@ -10,7 +10,7 @@ RULE = ('the real UDP receiver on loopback: sockets 1..4 x workers 1..8 x queue 
         'hook: size, buffer address), decoder call start / end (id, checksum valid, buffer address), Dropped callback (id, '
         'buffer); after quiescence the trace is judged by the extracted Coq monitor: no buffer read into while queued or under '
         'a running decoder call, every id started at most once, never both decoded and dropped, no drop in blocking mode, '
-        'checksum valid at start and end, reads == decoded + dropped; Stop must then return. '
+        'checksum valid at start and end, reads == decoded + dropped; the callback cmd/goflow2 installs (metrics.NewReceiverMetric) is called next to the recording one and its Prometheus counters must move by exactly the drops of the run; Stop must then return. '
         'non-trivial = a run with at least 32 reads; distinct by parameters')
 TRUSTED = ['Coq 8.16.1 kernel (coqc), vm_compute in the monitor Example', 'extraction + ocaml/main.ml glue',
            'Go harness harness/udp.go, the verif hook in utils/udp.go, bin/engine.py',
@@ -52,9 +52,10 @@ def run(chk):
             chk.nontrivial.add(hashlib.sha1(a.encode()).digest()[:8])
         bad_ck = any(f[i] == 'S' and f[i + 3] == '#0' for i in range(len(f) - 3)) or \
             any(f[i] == 'E' and f[i + 2] == '#0' for i in range(len(f) - 2))
-        if not v.startswith('traceok') or bad_ck or not o.endswith('stopok'):
-            chk.record('scopeA', dict(concrete=True, input=a, impl=o[-3000:], verdict=v, checksum_bad=bad_ck,
-                       what='the receiver\'s event trace violates the monitor (double / missing / both decode and drop, buffer reuse, drop in blocking mode, corrupt payload) or Stop did not return'), {})
+        bad_metric = any(x.startswith('dropmetricBAD') for x in f)
+        if not v.startswith('traceok') or bad_ck or bad_metric or not o.endswith('stopok'):
+            chk.record('scopeA', dict(concrete=True, input=a, impl=o[-3000:], verdict=v, checksum_bad=bad_ck, drop_metric_bad=bad_metric,
+                       what='the receiver\'s event trace violates the monitor (double / missing / both decode and drop, buffer reuse, drop in blocking mode, corrupt payload), the Prometheus drop counter of metrics/receiver.go did not move by the number of drops, or Stop did not return'), {})
         chk.count('drops', f.count('D'))
         chk.count('decodes', f.count('E'))
     chk.notes.append('events judged by the monitor: %d' % total_events)
